@@ -350,6 +350,22 @@ def rule_c(ctx):
         for bb, i, pl, rv, s in b.assignments():
             if rv["k"] == "tlref" and "STRINGS" in rv.get("def", "") and not b.path.startswith("grass_compiler::interner::"):
                 r.violate("interner|access|%s" % b.root, "the thread-local interner is accessed outside interner.rs, in %s" % b.path)
+    # ... and only through operations whose result does not reveal what earlier compilations interned:
+    # get_or_intern (same text -> same id within a thread, ids only compared) and resolve (id -> its own text).
+    ALLOWED = {"Rodeo::get_or_intern": "idempotent insert", "Rodeo::resolve": "id -> text", "Rodeo::default": "construction", "Rodeo::new": "construction"}
+    ni = 0
+    for b in prog.bodies.values():
+        for c in b.calls():
+            if (c.callee or "").startswith("lasso::"):
+                ni += 1
+                t2 = an.tail2(c.callee)
+                key = "interner|op|%s|%s" % (b.root, t2)
+                if t2 in ALLOWED:
+                    r.ok(key, why=ALLOWED[t2])
+                else:
+                    r.violate(key, "%s queries the interner with %s: its answer depends on which strings earlier compilations on this thread interned "
+                              "(only get_or_intern and resolve are history-transparent)" % (b.path, c.callee), c.loc())
+    r.floor("interner operations", ni, 4)
     return r
 
 
